@@ -8,8 +8,8 @@
      EError r            the transport reports an error for r (MessageManager.dispatch_error),
      ECancel rid         the requester cancels Request.response,
      EResponse r ty mid rid   a 2.05 response from r (piggy-backed ACK / separate CON / NON) carrying the token of request rid,
-     ERefuse r false     (a transport that does NOT refuse datagrams synchronously: [wf_run] admits ERefuse only with `false`;
-                          for refusing transports see the step-level theorems C03_refused_*_partial and the Examples at the end),
+     ERefuse r on        the transport starts / stops refusing datagrams to r synchronously (udp6 sendmsg failing: dispatch_error runs
+                          inside message_interface.send); every theorem below holds for runs with such transports,
    and every scripted random stream in [0,1].  [trace_of] is the list of outputs (datagrams sent with their time, request
    failures with their time); times are integer microseconds.  tn = (ACK_TIMEOUT us, ACK_RANDOM_FACTOR = num/den, MAX_RETRANSMIT). *)
 From Coq Require Import QArith String.
@@ -49,7 +49,9 @@ Theorem C03_gives_up : forall mid0 draws evs t m, wf_run draws evs -> In (OSend 
     ( (exists e, In e (active_exchanges (final_of mid0 draws evs)) /\ h_message (e_timer e) = m /\
                  h_due (e_timer e) = T0 + t0 * (2 ^ Z.of_nat n - 1) /\ now (final_of mid0 draws evs) <= h_due (e_timer e)) \/
       (Z.of_nat n = MAX_RETRANSMIT (m_tuning m) + 1 /\
-       In (OFail (T0 + t0 * (2 ^ (MAX_RETRANSMIT (m_tuning m) + 1) - 1)) (m_rid m) ConRetransmitsExceeded) (trace_of mid0 draws evs)) ).
+       In (OFail (T0 + t0 * (2 ^ (MAX_RETRANSMIT (m_tuning m) + 1) - 1)) (m_rid m) ConRetransmitsExceeded) (trace_of mid0 draws evs)) \/
+      (* ... or a (re)transmission was refused by the transport and the request failed with NetworkError *)
+      (exists tf, In (OFail tf (m_rid m) NetworkError) (trace_of mid0 draws evs)) ).
 Proof. exact gives_up. Qed.
 Print Assumptions C03_gives_up.
 (* ... and that instant is never later than MAX_TRANSMIT_WAIT (the last copy never later than MAX_TRANSMIT_SPAN) after the first
@@ -68,7 +70,9 @@ Proof. exact error_classes. Qed.
 Print Assumptions C03_error_classes.
 
 (* 4. an ACK / RST whose (remote, mid) is that of an outstanding exchange: no further copy of that message in this step or in
-      any continuation; an RST fails the request with MessageError at that instant, an ACK does not fail it *)
+      any continuation; an RST fails the request with MessageError at that instant (unless it was cancelled / answered before); an ACK
+      does not fail it -- except that, when the ACK releases a backlogged message which a refusing transport rejects, the
+      dispatch_error for that remote fails the still-pending ACKed request with NetworkError *)
 Theorem C03_ack_stops : forall mid0 draws evs1 r b mid evs2 mon h,
   wf_run draws (evs1 ++ ERecv r b mid :: evs2) ->
   xget (r, mid) (active_exchanges (final_of mid0 draws evs1)) = Some (mon, h) ->
@@ -76,7 +80,8 @@ Theorem C03_ack_stops : forall mid0 draws evs1 r b mid evs2 mon h,
   let '(st2, o) := step st1 (ERecv r b mid) in
   let '(st3, os) := run st2 evs2 in
   mon = m_rid (h_message h) /\ copies mon (o ++ concat os) = [] /\
-  (if b then In (gone_key mon) (recv_keys evs1) \/ In (OFail (now st1) mon MessageError) o else forall t e, ~ In (OFail t mon e) o).
+  (if b then In (gone_key mon) (recv_keys evs1) \/ In (OFail (now st1) mon MessageError) o
+   else forall t e, In (OFail t mon e) o -> e = NetworkError /\ is_refusing st1 r = true).
 Proof. exact ack_stops. Qed.
 Print Assumptions C03_ack_stops.
 
@@ -175,17 +180,19 @@ Example C03_piggybacked_response_stops :
 Proof. vm_compute. reflexivity. Qed.
 
 (* ---- transports that refuse a datagram synchronously (udp6 sendmsg failing: dispatch_error runs inside message_interface.send).
-   Code as of fix commits 11456f9 / 8d04b7c.  Step-level statements, proved for ANY state; what is NOT proved here is the run-level
-   "no further copy in any continuation" for runs that contain refusals (the run-level theorems above assume a transport that never
-   refuses; for refusing transports that continuation is covered by the correspondence run and the oracle only) -- hence _partial. *)
-Theorem C03_refused_first_transmission_partial : forall st m mon st' o, is_refusing st (m_remote m) = true ->
+   Code as of fix commits 11456f9 / 8d04b7c: every send happens in a state satisfying the invariants, and a refusal is literally
+   MessageManager.dispatch_error for that remote in that state (Proofs: send_initially_struct, retransmit_struct, response_shape).
+   Hence theorems 1-7 above hold for runs WITH refusals (wf_run does not restrict ERefuse), and: *)
+(* step level, any state: a refused first transmission / retransmission puts nothing on the wire, leaves no exchange and no backlog
+   for the remote, and fails every request pending towards it with NetworkError at that instant *)
+Theorem C03_refused_first_transmission : forall st m mon st' o, is_refusing st (m_remote m) = true ->
   _send_initially st m mon = (st', o) ->
   (forall t m', ~ In (OSend t m') o) /\ has_exchange_with st' (m_remote m) = false /\ in_backlogs st' (m_remote m) = false /\
   (forall rid, In (rid, m_remote m) (outgoing_requests st) -> In (OFail (now st) rid NetworkError) o) /\
   (forall q, In q (outgoing_requests st') -> snd q <> m_remote m).
 Proof. exact refused_send_initially. Qed.
-Print Assumptions C03_refused_first_transmission_partial.
-Theorem C03_refused_retransmission_partial : forall st h mon h0 st' o,
+Print Assumptions C03_refused_first_transmission.
+Theorem C03_refused_retransmission : forall st h mon h0 st' o,
   let m := h_message h in
   xget (m_remote m, m_mid m) (active_exchanges st) = Some (mon, h0) -> h_counter h < MAX_RETRANSMIT (m_tuning m) ->
   is_refusing st (m_remote m) = true -> _retransmit st h = (st', o) ->
@@ -193,7 +200,30 @@ Theorem C03_refused_retransmission_partial : forall st h mon h0 st' o,
   (forall rid, In (rid, m_remote m) (outgoing_requests st) -> In (OFail (now st) rid NetworkError) o) /\
   (forall q, In q (outgoing_requests st') -> snd q <> m_remote m).
 Proof. exact refused_retransmit. Qed.
-Print Assumptions C03_refused_retransmission_partial.
+Print Assumptions C03_refused_retransmission.
+(* run level: the message whose retransmission / first transmission is refused is never put on the wire again, in that step or in
+   any continuation (which may contain anything, further refusals included); the requests towards the remote fail at that instant *)
+Theorem C03_refused_retransmission_stops : forall mid0 draws evs1 ev evs2 h,
+  wf_run draws (evs1 ++ ev :: evs2) -> (ev = EFire \/ (ev = EFireDue /\ h_due h <= now (final_of mid0 draws evs1))) ->
+  next_timer (final_of mid0 draws evs1) = Some h ->
+  h_counter h < MAX_RETRANSMIT (m_tuning (h_message h)) ->
+  is_refusing (final_of mid0 draws evs1) (m_remote (h_message h)) = true ->
+  let st1 := final_of mid0 draws evs1 in
+  let '(st2, o) := step st1 ev in
+  let '(st3, os) := run st2 evs2 in
+  copies (m_rid (h_message h)) (o ++ concat os) = [] /\
+  (forall rid, In (rid, m_remote (h_message h)) (outgoing_requests st1) -> In (OFail (Z.max (now st1) (h_due h)) rid NetworkError) o).
+Proof. exact refused_retransmission_stops. Qed.
+Print Assumptions C03_refused_retransmission_stops.
+Theorem C03_refused_request_stops : forall mid0 draws evs1 rid r tn evs2,
+  wf_run draws (evs1 ++ ERequest rid r tn :: evs2) ->
+  is_refusing (final_of mid0 draws evs1) r = true -> in_backlogs (final_of mid0 draws evs1) r = false ->
+  let st1 := final_of mid0 draws evs1 in
+  let '(st2, o) := step st1 (ERequest rid r tn) in
+  let '(st3, os) := run st2 evs2 in
+  copies rid (o ++ concat os) = [] /\ In (OFail (now st1) rid NetworkError) o.
+Proof. exact refused_request_stops. Qed.
+Print Assumptions C03_refused_request_stops.
 
 (* the scenarios that were defects before 11456f9 / 8d04b7c (exchange resurrected by _retransmit after a refused retransmission: copies
    of the failed request at 6/14/30 s, request 2 failed at 62 s instead of 68 s, KeyError at 68 s; KeyError out of _continue_backlog on
@@ -221,5 +251,7 @@ Example C03_refused_first_transmission_clean :
   ([[]; [ODraw 0 2000000 2000000 2000000; OFail 0 0 NetworkError]; []], ([], [], []), 0).
 Proof. vm_compute. reflexivity. Qed.
 
+Example C03_wf_run_with_refusals : wf_run [0; 0; 0] refused_witness.
+Proof. unfold wf_run, refused_witness, wf_tuning, tn1, RNG_DEN. cbn. repeat split; try lia; try (repeat constructor; lia); intuition discriminate. Qed.
 Example C03_range_nonvacuous : wf_tuning dflt /\ range dflt 2000000 /\ range dflt 3000000 /\ ~ range dflt 3000001.
 Proof. unfold wf_tuning, range, dflt; cbn. lia. Qed.
